@@ -134,12 +134,14 @@ func VerifC12Decimal() {
 // VerifC12Bystander: an update leaves the numeric value of numbers it does not target unchanged, for
 // numerals in exponent form and beyond the int64 range that a double represents exactly.
 func VerifC12Bystander() {
-	numerals := []string{"1e20", "100000000000000000000", "-1e19", "1e22", "9223372036854775808", "-9223372036854775808", "4611686018427387904", "1.5", "-0.25", "1e-3", "0"}
+	numerals := []string{"1e20", "100000000000000000000", "-1e19", "1e22", "9223372036854775808", "-9223372036854775808", "4611686018427387904", "1.5", "-0.25", "1e-3", "0",
+		"0.1", "16777217", "1e39", "123456789.125"}
 	b := numerals[nd.Choice("numeral", len(numerals))]
 	exprs := []string{"SET a = :v", "REMOVE a", "ADD n :one", "SET c = b"}
 	e := exprs[nd.Choice("expr", len(exprs))]
 	one, seven, v := "1", "7", nd.StringN("v", 1)
-	item := map[string]*types.Item{"a": {S: &v}, "n": {N: &seven}, "b": {N: &b}, "l": {L: []*types.Item{{N: &b}}}}
+	item := map[string]*types.Item{"a": {S: &v}, "n": {N: &seven}, "b": {N: &b}, "l": {L: []*types.Item{{N: &b}}},
+		"ns": {NS: []*string{&b}}, "m": {M: map[string]*types.Item{"k": {N: &b}}}}
 	vals := map[string]*types.Item{}
 	if e == "SET a = :v" {
 		vals[":v"] = &types.Item{S: &v}
@@ -160,6 +162,8 @@ func VerifC12Bystander() {
 	}
 	nd.Assert(same(item["b"]), "C12-untargeted-number-keeps-its-value ["+b+"]")
 	nd.Assert(item["l"] != nil && len(item["l"].L) == 1 && same(item["l"].L[0]), "C12-untargeted-nested-number-keeps-its-value ["+b+"]")
+	nd.Assert(item["m"] != nil && same(item["m"].M["k"]), "C12-untargeted-map-member-number-keeps-its-value ["+b+"]")
+	nd.Assert(item["ns"] != nil && len(item["ns"].NS) == 1 && item["ns"].NS[0] != nil && same(&types.Item{N: item["ns"].NS[0]}), "C12-untargeted-number-set-member-keeps-its-value ["+b+"]")
 	if e == "SET c = b" {
 		nd.Assert(same(item["c"]), "C12-copied-number-keeps-its-value ["+b+"]")
 	}
